@@ -25,7 +25,7 @@ EXPLANATION = (
     "None = free operators, psi = 0 held exactly by the update); real runs checked on every frame; eulerSite(Float) "
     "compared with the implementation's Euler step on every site."
 )
-ASSUMPTIONS = ["exact equality demanded on pinned sites"]
+ASSUMPTIONS = ["exact equality demanded on pinned sites", "frame 0 of a run that continues a seed solution is the seed's own state: the configured terminal value is demanded from step 1 on"]
 
 
 def configs(quick):
@@ -42,6 +42,10 @@ def configs(quick):
     # after it has been used for the runs above
     out.append(dict(dev="bar", tp=0.0, remesh=0.55, cur={"source": 4.0, "drain": -4.0}, A=0.4, opts=dict(dt_init=5e-3, adaptive=False)))
     out.append(dict(dev="bar", tp=0.5, remesh=1.3, cur={"source": 4.0, "drain": -4.0}, A=0.4, opts=dict(dt_init=1e-2, adaptive=False)))
+    # runs that continue an earlier solution computed with ANOTHER terminal value: the value configured for this run
+    # counts (unset -> the terminal sites, which start at the seed's pinned value, evolve freely)
+    out.append(dict(dev="bar", tp=None, seed_tp=0.0, cur={"source": 4.0, "drain": -4.0}, A=0.4, opts=dict(dt_init=1e-2, adaptive=False)))
+    out.append(dict(dev="bar", tp=0.0, seed_tp=None, cur={"source": 4.0, "drain": -4.0}, A=0.4, opts=dict(dt_init=1e-2, adaptive=False)))
     out.append(dict(dev="cross4", tp=0.0, cur={"source": 5.0, "drain": -2.0, "top": -3.5, "bottom": 0.5}, A=ramp, opts=dict(dt_init=2e-3, dt_max=2e-2, adaptive=True, adaptive_window=2)))
     out.append(dict(dev="bar3", tp=0.5, cur=None, A=0.6, opts=dict(dt_init=1e-2, adaptive=False, include_screening=True, screening_tolerance=1e-2)))
     if not quick:
@@ -86,8 +90,15 @@ def eval_config(ctx, cfg, with_model=True):
     opts = runs.options(solve_time=cfg.get("T", 0.15), save_every=cfg.get("k", 3), output_file=out, terminal_psi=tp, progress_interval=10**9, **cfg["opts"])
     import c05
 
+    seed = None
+    if "seed_tp" in cfg:
+        seed = tdgl.solve(dev, runs.options(solve_time=0.1, save_every=100, terminal_psi=cfg["seed_tp"], progress_interval=10**9, **cfg["opts"]), applied_vector_potential=cfg["A"], terminal_currents=cfg["cur"])
+        tag["seeded_from_terminal_psi"] = repr(cfg["seed_tp"])
+        ctx.count("runs_seeded_from_another_terminal_value")
     with c05.ScheduledRefusals(bool(cfg.get("refusals"))):  # every fourth evaluation of the site update is refused -> retried
-        sol = tdgl.solve(dev, opts, applied_vector_potential=cfg["A"], terminal_currents=cfg["cur"])
+        sol = tdgl.solve(dev, opts, applied_vector_potential=cfg["A"], terminal_currents=cfg["cur"], seed_solution=seed)
+    if opts.terminal_psi != tp and not (opts.terminal_psi is None and tp is None):
+        fail("options-changed-by-run", f"the run changed the caller's terminal_psi option from {tp!r} to {opts.terminal_psi!r}")
     if cfg.get("refusals"):
         ctx.count("runs_with_scheduled_refusals")
     frames, _ = runs.parse_h5(sol.path)
@@ -97,9 +108,9 @@ def eval_config(ctx, cfg, with_model=True):
     moved = np.zeros(len(psi0), dtype=bool)
     for fr in frames:
         psi = fr["data"]["psi"]
-        ctx.case((cfg["dev"], str(tp), cfg.get("remesh"), bool(cfg["opts"].get("include_screening")), fr["step"]), nontrivial=fr["step"] > 0)
+        ctx.case((cfg["dev"], str(tp), repr(cfg.get("seed_tp", "-")), cfg.get("remesh"), bool(cfg["opts"].get("include_screening")), fr["step"]), nontrivial=fr["step"] > 0)
         ctx.count(f"terminal_psi={tp}")
-        if tp is not None:
+        if tp is not None and not (seed is not None and fr["step"] == 0):  # step 0 of a seeded run is the seed's own state
             if not np.all(psi[tsites] == tp):
                 k = "zero" if tp == 0 else "nonzero"
                 dev_ = float(np.abs(psi[tsites] - tp).max())
